@@ -5,11 +5,11 @@ Local Open Scope Z_scope.
 
 (* ------------------------------------------------------------------ line classification *)
 Ltac split_tests :=
-  repeat match goal with
+  repeat (match goal with
          | |- context [?a <=? ?b] => destruct (Z.leb_spec a b)
          | |- context [?a <? ?b] => destruct (Z.ltb_spec a b)
          | |- context [?a =? ?b] => destruct (Z.eqb_spec a b)
-         end; cbn [andb orb]; try reflexivity; try lia.
+         end; cbn [andb orb]; try reflexivity; try lia).
 
 (* the layout the writer produces, as a function of the line number *)
 Definition layout (ndep nattr li : Z) : lkind :=
